@@ -473,6 +473,7 @@ def run_property(mod, tier, seed, jobs=None):
             "violation_signatures": [json.loads(k) for k in by_sig],
             "notes": notes[:20],
             "harness_errors": len(harness_errors),
+            "harness_error_heads": [e[:1500] for e in harness_errors[:3]],
         },
         "assumptions": list(mod.ASSUMPTIONS),
         "wall_s": round(wall, 2),
